@@ -22,6 +22,17 @@ def generate(rng, n, tier, stats):
         nd = len(a['dims'])
         stats['array_dtype'][dtype] += 1
         cast = rng.random() < 0.6
+        if dtype == 'i' and nd >= 1 and a['flat'] and rng.random() < 0.25:
+            # an int64 array holding integers that a float32 cannot hold, assigned a float32 value (scalar or array) with
+            # cast=True: the array becomes float64, the cells that are not addressed keep their exact values
+            a['flat'] = [16777217 + 2 * i for i in range(len(a['flat']))]
+            size = len(a['flat'])
+            mask = [rng.random() < 0.4 for _ in range(size)]
+            if rng.random() < 0.6: rhs = {'scalar': 2.5, 'np': 'float32'}
+            else: rhs = {'shape': [sum(mask)], 'dtype': 'f', 'flat': [0.5 + j for j in range(sum(mask))], 'np': 'float32'}
+            stats['family']['float32_rhs'] += 1
+            cases.append({'ins': [a], 'ops': [['putmask', mask, rhs, True, 'put']]})
+            continue
         if nd >= 1 and rng.random() < 0.12:
             size = 1
             for l in a['labels']: size *= len(l)
